@@ -664,7 +664,8 @@ theorem text_cell_typed (ext : Ext) (f : Format) (typ : Ty) (ht : typ ≠ .none)
     · rename_i hf
       simp only [Outcome.ok.injEq, Prod.mk.injEq, and_true] at h
       refine ⟨_, h.symm, .inr (.inr ⟨ms, rfl, ?_⟩)⟩
-      simpa using hf
+      have hf' : (f = Format.auto ∨ f = Format.hidden) ∧ typ = Ty.none := by simpa using hf
+      exact hf'.1
     · exact widen (importByFormat_typed ext f typ ht _ c h)
   · rename_i v hnr
     cases v with
